@@ -18,19 +18,18 @@ package wire
 //@   ensures [fail-stop] old(#failed) ==> result != nil
 //@   ensures [err-kind] result != nil ==> SinkErr(result)
 //@   ensures [writer-reset] writer.err == nil && writer.frame.#blen == 0
+//@   ensures [no-auth-frames] {C01} #nAuthOk == old(#nAuthOk) && #authR == old(#authR)
 //@   modifies WriterState(writer), Out()
 
 //@ func writeAuthType
 //@   props C02 C01 C12 C04
 //@   requires WriterReady(writer)
-//@   ensures [one-R] result == nil ==> (#nOut == old(#nOut) + 1 && #last == 'R' && #nZ == old(#nZ) && #nE == old(#nE) && #cyc == old(#cyc) && #failed == old(#failed) && #authR == status)
+//@   ensures [one-R] result == nil ==> (#nOut == old(#nOut) + 1 && #last == 'R' && #nZ == old(#nZ) && #nE == old(#nE) && #cyc == old(#cyc) && #failed == old(#failed) && #authR == wrap32u(status))
 //@   ensures [failed] result != nil ==> (#nZ == old(#nZ) && #nE == old(#nE) && #nOut == old(#nOut) && #failed && #authR == old(#authR))
 //@   ensures [fail-stop] old(#failed) ==> result != nil
 //@   ensures [err-kind] result != nil ==> SinkErr(result)
-//@   ensures [auth-ok-count] {C01} #nAuthOk == old(#nAuthOk) + ((result == nil && status == 0) ? 1 : 0)
-//@   ghostset #authR = status if result == nil
-//@   ghostset #nAuthOk = old(#nAuthOk) + 1 if result == nil && status == 0
-//@   modifies WriterState(writer), Out(), #authR, #nAuthOk
+//@   ensures [auth-ok-count] {C01} #nAuthOk == old(#nAuthOk) + ((result == nil && wrap32u(status) == 0) ? 1 : 0)
+//@   modifies WriterState(writer), Out()
 
 //@ func commandComplete
 //@   props C02 C05 C04
@@ -59,6 +58,7 @@ package wire
 //@   ensures [field-constraint] {C17} (result == nil && err != nil) ==> (hasbit(#E_mask, 256) <==> specConstraint(err) != "") && (specConstraint(err) != "" ==> #E_n == specConstraint(err))
 //@   ensures [mandatory] {C17 C02} result == nil ==> (hasbit(#E_mask, 1) && hasbit(#E_mask, 2) && hasbit(#E_mask, 4))
 //@   ensures [writer-reset] writer.err == nil && writer.frame.#blen == 0
+//@   ensures [no-auth-frames] {C01} #nAuthOk == old(#nAuthOk) && #authR == old(#authR)
 //@   modifies WriterState(writer), Out()
 
 //@ func ErrorCode
@@ -79,6 +79,7 @@ package wire
 //@   ensures [field-constraint] {C17} (result == nil && err != nil) ==> (hasbit(#E_mask, 256) <==> specConstraint(err) != "") && (specConstraint(err) != "" ==> #E_n == specConstraint(err))
 //@   ensures [mandatory] {C17 C02} result == nil ==> (hasbit(#E_mask, 1) && hasbit(#E_mask, 2) && hasbit(#E_mask, 4))
 //@   ensures [writer-reset] writer.err == nil && writer.frame.#blen == 0
+//@   ensures [no-auth-frames] {C01} #nAuthOk == old(#nAuthOk) && #authR == old(#authR)
 //@   modifies WriterState(writer), Out()
 
 // ---- connection context -----------------------------------------------------
